@@ -109,7 +109,7 @@ func genSession(x *engine.X, maxMsgs int, lengths []int) *wsSession {
 		if m == 0 {
 			n = lengths[x.Pick(len(lengths), "payload length class")]
 		} else {
-			short := []int{0, 1, 126}
+			short := []int{0, 1, 126, 65536}
 			n = short[x.Pick(len(short), "payload length of later message")]
 		}
 		p := payloadBytes(m+1, n)
